@@ -294,9 +294,11 @@ GridLaws(xmin, xmax) ==
   /\ QLe(g[Len(g)], xmax) /\ QLt(xmax, QAdd(g[Len(g)], One))
 
 (* A trace-set problem t: basis, nc, xpos, ypos, w (nTrace sequences of equal length),        *)
-(* given (xmin/xmax supplied by the caller?), xmin, xmax, jump.                               *)
-TsXmin(t) == IF t.given THEN t.xmin ELSE QMinSeq(Flatten(t.xpos))
-TsXmax(t) == IF t.given THEN t.xmax ELSE QMaxSeq(Flatten(t.xpos))
+(* gmin / gmax (is xmin / xmax supplied by the caller?), xmin, xmax, jump.  A supplied limit   *)
+(* is used whatever its value (zero and negative values included); only a limit that is not   *)
+(* supplied is taken from the positions.                                                      *)
+TsXmin(t) == IF t.gmin THEN t.xmin ELSE QMinSeq(Flatten(t.xpos))
+TsXmax(t) == IF t.gmax THEN t.xmax ELSE QMaxSeq(Flatten(t.xpos))
 TsXvec(t, k, j) == LET lo == TsXmin(t)  hi == TsXmax(t) IN
                    TLCEval([i \in 1..Len(t.xpos[k]) |-> XNorm(t.xpos[k][i], lo, hi, j)])
 (* trace k as a fitting problem on the normalised abscissae (all coefficients free) *)
